@@ -207,7 +207,10 @@ func VerifC12Retention() {
 		}
 		def, defined := defs.Pipelines[j.Pipeline]
 		if !defined {
-			verifAssert(!k, "C12.undefined-pipeline-purged")
+			// a job that still executes may be kept until it has finished (C01: it holds its slot until it is
+			// reported completed); everything else of a pipeline that is no longer defined is removed
+			executing := verifAnd(j.Start != nil, verifAnd(verifNot(j.Completed), verifNot(j.Canceled)))
+			verifAssert(verifImplies(verifNot(executing), !k), "C12.undefined-pipeline-purged")
 			continue
 		}
 		fin := vFinished(j)
